@@ -213,6 +213,7 @@ func normAll(s string) string      { return strings.Join(strings.FieldsFunc(s, l
 type nativeClient interface {
 	activate()
 	setInterp(n *interpreter.Native)
+	getInterp() *interpreter.Native
 }
 type v1n struct{ c *v1client.Client }
 type v2n struct{ c *v2client.Client }
@@ -221,6 +222,8 @@ func (x v1n) activate()                       { x.c.ActivateNativeInterpreter() 
 func (x v1n) setInterp(n *interpreter.Native) { x.c.SetInterpreter(n) }
 func (x v2n) activate()                       { x.c.ActivateNativeInterpreter() }
 func (x v2n) setInterp(n *interpreter.Native) { x.c.SetInterpreter(n) }
+func (x v1n) getInterp() *interpreter.Native  { return x.c.GetNativeInterpreter() }
+func (x v2n) getInterp() *interpreter.Native  { return x.c.GetNativeInterpreter() }
 
 func nativeOf(cl adapt.Client) nativeClient {
 	switch c := cl.Raw().(type) {
@@ -624,6 +627,7 @@ func (p *c20) RunCase(ctx *runner.Ctx) runner.CaseResult {
 			p.missingUpdaterAndConditions(x, adapt.Adapters[ctx.Case-seqCases])
 		p.prefixNamedTables(x, adapt.Adapters[ctx.Case-seqCases])
 		p.composedTexts(x, adapt.Adapters[ctx.Case-seqCases])
+		p.keyExistenceGuards(x, adapt.Adapters[ctx.Case-seqCases])
 			return x.r
 		}
 		p.parallelClients(x, ctx.Case-seqCases-2, ctx)
